@@ -191,20 +191,18 @@ def gen_case(rng):
     mode = rng.choice(["one", "length", "length", "dict", "dict", "attr"])
     r = rng.random()
     exact = mode == "length"
-    if r < 0.35:
+    if r < 0.32:
         b = gen_polyline(rng, exact)
         if b is None:
             b = gen_grid_surface(rng)
-    elif r < 0.65:
+    elif r < 0.60:
         b = gen_grid_surface(rng)
-    elif r < 0.72:
+    elif r < 0.66:
         b = gen_closed_surface(rng)
-    elif r < 0.85:
+    elif r < 0.78:
         b = gen_volume(rng)
     else:
-        b = gen_proc(rng)
-        if exact:
-            mode = rng.choice(["one", "dict", "attr"])
+        b = gen_proc(rng)      # general coordinates: "length" is then checked by the oracle only, with a tolerance
     style = rng.choice(["small", "ties", "zeros", "dyadic", "spread"])
     npool = rng.randint(1, 40)
     if style == "small":
@@ -403,12 +401,22 @@ def polyline_problem(info, paths, pl):
     return None
 
 
+def float_lengths(info):
+    P = info["coords"]
+    return [math.dist(P[a], P[b]) for a, b in info["edges"]]
+
+
+def same_weight(a, b, exact):
+    return a == b if exact else abs(a - b) <= 1e-9 * (1 + abs(b))
+
+
 def oracle_query(case, info, q, o):
     """None, or a sentence saying how the observed answer violates the property."""
     n, edges = info["n"], info["edges"]
     w = edge_weights(case, info)
-    if w is None:
-        return None
+    exact = w is not None
+    if not exact:
+        w = float_lengths(info)      # "length" on general coordinates: binary64 sums, compared with a tolerance
     s = q["start"]
     wmap = {}
     for (a, b), x in zip(edges, w):
@@ -427,7 +435,7 @@ def oracle_query(case, info, q, o):
             m = path_problem(info, wmap, s, t, got[t])
             if m:
                 return m
-            if path_weight(wmap, got[t]) != d[t]:
+            if not same_weight(path_weight(wmap, got[t]), d[t], exact):
                 return "path %s to %d has weight %s, the minimum is %s" % (got[t], t, path_weight(wmap, got[t]), d[t])
         return polyline_problem(info, [p for _, p in o[1]], o[2] if len(o) > 2 else None)
     if q["f"] == "set":
@@ -458,7 +466,7 @@ def oracle_query(case, info, q, o):
     m = path_problem(info, wmap, s, ind, p)
     if m:
         return kind + ": " + m
-    if path_weight(wmap, p) != best:
+    if not same_weight(path_weight(wmap, p), best, exact):
         return "%s: path %s has weight %s but the nearest member is at %s" % (kind, p, path_weight(wmap, p), best)
     return polyline_problem(info, [p], pl)
 
@@ -540,7 +548,7 @@ def shrink(case, qi, budget=30):
 # ---------------------------------------------------------------------- the check
 def run(ctx):
     quick = ctx.tier == "quick"
-    n_cases = 150 if quick else 3400
+    n_cases = 240 if quick else 3400
     k_queries = 5 if quick else 6
     ctx.rule = ("meshes: lattice polylines (2-20 vertices, possibly disconnected), 3-4-5 grid surfaces (tri/quad/mixed, "
                 "optional hole), closed Euler-brick tetrahedron / box surface, 5-tet Euler-brick volume rows, mouette.procedural "
@@ -607,9 +615,14 @@ def run(ctx):
                    "at a nearest member", "oracle-on-implementation", True, "%d failing queries" % len(fails))
 
     bad = []
+    # cases with inexact Euclidean lengths (general coordinates) are judged by the oracle only
+    cidx = [i for i, (c, inf) in enumerate(zip(cases, infos)) if edge_weights(c, inf) is not None]
+    ctx.count("cases in the kernel-checked correspondence", len(cidx))
+    ctx.count("cases judged by the oracle only (length mode, inexact coordinates)", len(cases) - len(cidx))
     if b["model_ok"]:
-        bad = ctx.run_cases("paths", HEADER, [case_term(c, inf) for c, inf in zip(cases, infos)], "check_case",
+        bad = ctx.run_cases("paths", HEADER, [case_term(cases[i], infos[i]) for i in cidx], "check_case",
                             case_type=CASE_TYPE, shard=(12 if quick else 60))
+        bad = [cidx[i] for i in (bad or [])]
     else:
         ctx.obligation("correspondence batches", "correspondence", False, "model does not compile")
 
